@@ -2,7 +2,7 @@
 derive/provide consistency check; engine K harnesses for the slot arithmetic, see harness/src/c05.rs)"""
 from engine_k import runner as K
 
-EVIDENCE = dict(assumptions=['kernel only: CounterpartyCommitmentSecrets (provide_secret / derive_secret / get_secret / place_secret / get_min_seen_secret) and build_commitment_secret; SHA-256 is an uninterpreted function, the 32-byte seed is symbolic, commitment indices are the top m of the 2^48 range (protocol order)', 'the check of a received secret against the announced commitment point is an EC operation (secp256k1) and is NOT covered; HolderCommitmentPoint advance, release_commitment_secret ordering, signer/broadcaster call sequences, reestablish and restart are schedule-level and outside the claim'])
+EVIDENCE = dict(assumptions=['C05.c: revoke_and_ack executed as a region up to the call of provide_secret; ChannelState predicates, SecretKey::from_slice, PublicKey::from_secret_key, PublicKey equality and the signer validation are stubs with free outcomes', 'kernel only: CounterpartyCommitmentSecrets (provide_secret / derive_secret / get_secret / place_secret / get_min_seen_secret) and build_commitment_secret; SHA-256 is an uninterpreted function, the 32-byte seed is symbolic, commitment indices are the top m of the 2^48 range (protocol order)', 'the check of a received secret against the announced commitment point is an EC operation (secp256k1) and is NOT covered; HolderCommitmentPoint advance, release_commitment_secret ordering, signer/broadcaster call sequences, reestablish and restart are schedule-level and outside the claim'])
 
 
 def run(S):
@@ -11,4 +11,80 @@ def run(S):
     m = 8 if S.tier == 'quick' else 32
     honest_sequence(S, D, 'C05.a', m)
     inconsistent_rejected(S, D, 'C05.a', [2, 4] if S.tier == 'quick' else [2, 4, 6, 8, 16])
+    raa_acceptance(S, D)
     K.run_property(S, 'C05')
+
+
+def raa_acceptance(S, D):
+    """C05.c: FundedChannel::revoke_and_ack as a region - from its entry to the call that stores the peer's secret
+    (CounterpartyCommitmentSecrets::provide_secret). When is a revocation accepted for storage? The channel-state
+    predicates, secp256k1 (key parsing, point derivation, key comparison) and the signer's validation are stubs."""
+    import re
+    import z3
+    from engine_m import exec as X
+    from engine_m.session import Binding
+    ids = ['C05.c.accepted_iff', 'C05.c.nopanic', 'C05.c.witness', 'C05.c.validate']     # (+ 'C05.c.accepted_iff.live_states')
+    if all(S._skip(o) for o in ids):
+        return
+    ix = S.mir()
+    c = [i for i in range(len(ix.offsets)) if re.search(r'^fn channel::<impl at [^>]*>::revoke_and_ack\(', ix.offsets[i][0])]
+    if len(c) != 1:
+        raise X.Unsupported('FundedChannel::revoke_and_ack: %d candidates' % len(c))
+    f = ix.get(c[0])
+    E = S.engine(unwind=50)
+    mem = {}
+    args = [E.sym('a%d' % n, t, mem) if t.startswith('&') else (X.B(z3.Bool('hold_mon_update')) if t == 'bool' else X.Opaque('arg%d' % n)) for n, t in f.params]
+    preds = {}
+
+    def h_pred(E_, m, func, argv, guard, mem_, dty, caller):
+        preds.setdefault(m.group(1), z3.Bool('state.' + m.group(1)))
+        return X.B(preds[m.group(1)])
+    key_ok, pt_match, sig_ok = z3.Bool('env.secret_is_valid_key'), z3.Bool('env.derived_point_matches'), z3.Bool('env.signer_accepts')
+    for rx, h in [
+        (r'ChannelState::(is_\w+)$', h_pred),
+        (r'SecretKey::from_slice$', lambda *a: X.En('Result', z3.If(key_ok, 0, 1), {0: [X.Adt('SecretKey', {}, base='the_secret')], 1: [X.Opaque('secp error')]})),
+        (r'PublicKey::from_secret_key::<', lambda *a: X.Adt('PublicKey', {}, base='derived_point')),
+        (r'PublicKey as PartialEq>::(ne|eq)$', lambda E_, m, func, argv, guard, mem_, dty, caller: X.B(z3.Not(pt_match) if m.group(1) == 'ne' else pt_match)),
+        (r'ChannelSigner>::validate_counterparty_revocation$', lambda *a: X.En('Result', z3.If(sig_ok, 0, 1), {0: [X.UNIT], 1: [X.UNIT]})),
+        (r'ChannelError::close$|ToOwned>::to_owned$', lambda *a: X.Opaque('err')),
+    ]:
+        E.models.insert(0, (re.compile(rx), h))
+    run = X.FnRun(E, f, args, True, mem)
+    stops = {b for b, (body, term) in f.blocks.items() if term[0] == 'call' and re.search(r'CounterpartyCommitmentSecrets::provide_secret$', str(term[2]))}
+    if len(stops) != 1:
+        raise X.Unsupported('the call that stores the secret was not found in revoke_and_ack (%d candidates)' % len(stops))
+    E.depth += 1
+    rv, ret, m2 = run.run(stop_bbs=stops)
+    E.depth -= 1
+    st = run.stop_states.get(list(stops)[0], [])
+    stored = z3.Or(*[X.zbool(g) for g, _ in st]) if st else z3.BoolVal(False)
+    chan = mem[args[0].cell]
+    FC = D.struct_fields('FundedChannel', hint='ln/channel.rs')
+    CC = D.struct_fields('ChannelContext', hint='ln/channel.rs')
+    ctx = E.read_path(chan, (('f', FC.index('context'), 'ln::channel::ChannelContext<SP>'),), mem, True, 'spec')
+    state = E.read_path(ctx, (('f', CC.index('channel_state'), 'ln::channel::ChannelState'),), mem, True, 'spec')
+    ready = X.zint(state.d) == D.variant_index('ChannelState', 'ChannelReady', hint='ln/channel.rs')
+    closing_fee = X.zint(E.read_path(ctx, (('f', CC.index('last_sent_closing_fee'), 'Option<(u64, bool, ClosingSignedFeeRange, Option<Signature>)>'),), mem, True, 'spec').d) == 1
+    point_known = X.zint(E.read_path(ctx, (('f', CC.index('counterparty_current_commitment_point'), 'Option<bitcoin::secp256k1::PublicKey>'),), mem, True, 'spec').d) == 1
+    cn = E.read_path(ctx, (('f', CC.index('counterparty_next_commitment_transaction_number'), 'u64'),), mem, True, 'spec').t
+    P = lambda nm: preds.get(nm, z3.BoolVal(False))
+    operational = z3.And(z3.Not(P('is_quiescent')), ready, z3.Not(P('is_peer_disconnected')), z3.Not(z3.And(P('is_both_sides_shutdown'), closing_fee)))
+    spec = z3.And(operational, key_ok, z3.Implies(point_known, pt_match), P('is_awaiting_remote_revoke'), sig_ok)
+    E.assume(cn < (1 << 48))        # commitment numbers count down from 2^48 - 1
+    panic = z3.Or(*[X.zbool(p[0]) for p in E.panics]) if E.panics else False
+    normal = z3.And(z3.Not(P('is_quiescent')), ready, z3.Not(z3.And(P('is_both_sides_shutdown'), closing_fee)), key_ok, point_known, sig_ok)
+
+    def line_fn(v):
+        return '%d %d %d %d' % (v[0], v[1], v[2], v[3])
+    b = Binding('raa_probe', [z3.If(P('is_awaiting_remote_revoke'), 1, 0), z3.If(P('is_monitor_update_in_progress'), 1, 0), z3.If(P('is_peer_disconnected'), 1, 0),
+                              z3.If(pt_match, 1, 0), z3.If(normal, 1, 0)], [z3.If(stored, 1, 0)], line_fn=line_fn, which='oracle_tu', panic=panic, via_solver=True,
+                domain=[(0, 1), (0, 1), (0, 1), (0, 1), (1, 1)])
+    S.prove(ids[0] + '.live_states', E, [normal], stored == spec,
+            'the same, restricted to the states the live replay can realise (ready, announced point known, signer accepts): accepted iff connected, awaiting a revocation and the secret matches the announced point',
+            [b], bounds='subset of the obligation below (kept separate so that a counterexample lands in the replayable subspace)')
+    S.prove(ids[0], E, [], stored == spec,
+            'a revocation secret received from the peer reaches the secret store iff the channel is operational (ready, connected, not quiescent, not exchanging closing_signed), the secret is a valid key that derives the commitment point the peer announced for the commitment being revoked, we are actually awaiting a revocation (we signed a newer commitment the peer has not acknowledged), and the signer accepts it - never on an unsolicited or mismatching revoke_and_ack',
+            [b], bounds='all combinations of the channel-state predicates and of the stubbed secp256k1 / signer outcomes; execution cut at the call to provide_secret')
+    S.no_panic(ids[1], E, [], 'no panic on the way (commitment numbers < 2^48)', [b])
+    S.witness(ids[2], E, [z3.Not(P('is_awaiting_remote_revoke')), operational, key_ok, pt_match], z3.Not(stored))
+    S.validate(ids[3], E, b, n=8, extra_vectors=[(1, 0, 0, 1, 1), (1, 0, 0, 0, 1), (0, 0, 0, 1, 1), (0, 1, 0, 1, 1), (1, 1, 0, 1, 1), (1, 0, 1, 1, 1)])
